@@ -11,7 +11,12 @@ cd $W
 if ! git apply $OUT/$M.diff; then echo "APPLY-FAIL $P $M"; git -C /repo worktree remove --force $W; exit 1; fi
 PYTHONPATH=$W/src /venv/bin/python $OUT/${M}_demo.py $W/src >/tmp/sc_${P}_$M.with.log 2>&1; WITH=$?
 /venv/bin/python $OUT/${M}_demo.py /repo/src >/tmp/sc_${P}_$M.without.log 2>&1; WITHOUT=$?
-SUITE=$(PYTHONPATH=$W/src /venv/bin/python -m pytest -q -p no:cacheprovider -x -n 4 2>&1 | tail -1)
+SUITE=$(PYTHONPATH=$W/src /venv/bin/python -m pytest -q -p no:cacheprovider -n 4 2>&1 | grep -E "^FAILED|passed|failed" | tr '\n' ' ')
+if ! echo "$SUITE" | grep -q "3340 passed"; then
+  # timing-sensitive async tests can fail under heavy machine load: retry once
+  echo "first suite run: $SUITE"
+  SUITE=$(PYTHONPATH=$W/src /venv/bin/python -m pytest -q -p no:cacheprovider -n 4 2>&1 | grep -E "^FAILED|passed|failed" | tr '\n' ' ')
+fi
 git -C /repo worktree remove --force $W
 echo "$P $M demo_with=$WITH demo_without=$WITHOUT suite: $SUITE"
 if [ "$WITH" = "1" ] && [ "$WITHOUT" = "0" ] && echo "$SUITE" | grep -q "3340 passed"; then
